@@ -415,12 +415,16 @@ def e2e_case(ctx: Ctx):
     t = 200.0
     slices = []
     for uid in range(1, rng.randint(3, 9)):
-        ptype = rng.randrange(5)
+        ptype = rng.randrange(5) if not (slices and rng.random() < 0.3) else slices[-1]["ptype"]
         gaps = [rng.choice([0, 0, rng.randint(1, 60)]) for _ in range(4)]
         if ptype < 4 and gaps[ptype] == 0:
             gaps[ptype] = rng.randint(1, 60)
         if ptype == 4 and sum(gaps) == 0:
             gaps[0] = 5
+        if slices and slices[-1]["ptype"] == ptype and ptype < 4 and rng.random() < 0.5:
+            # the same lane as the previous slice, starting two device cycles (a few nanoseconds) before that one ends
+            prev = slices[-1]["ts5"]
+            t = prev[ptype + 1] - 2.0 / f - sum(gaps[:ptype])
         ts5 = [t]
         for g in gaps:
             ts5.append(ts5[-1] + g)
